@@ -1744,7 +1744,12 @@ class PseudoNetCDFFile(PseudoNetCDFSelfReg, object):
                         newvals = getattr(newvals, dfunc)(
                             axis=di, keepdims=True)
                     else:
+                        nd_before = newvals.ndim
                         newvals = np.apply_along_axis(**opts)
+                        if newvals.ndim == nd_before - 1:
+                            # a function that returns a scalar (np.mean)
+                            # leaves a dimension of length one
+                            newvals = np.expand_dims(newvals, di)
             # the output takes the data type the functions returned (e.g.,
             # the mean of an integer variable is not truncated)
             newvaro = outf.copyVariable(
